@@ -136,8 +136,8 @@ def run_case(case):
 
 
 def health(classes, n, tier):
-    need = {"eps_cycle": 0.02, "multi_start": 0.05, "unreachable_state": 0.05, "dead_state": 0.05,
-            "nondeterministic_or_eps": 0.2}
+    need = {"eps_cycle": 0.008, "multi_start": 0.02, "unreachable_state": 0.02, "dead_state": 0.02,
+            "nondeterministic_or_eps": 0.08}
     for k, frac in need.items():
         if classes.get(k, 0) < frac * n:
             return "class %s too rare: %d of %d" % (k, classes.get(k, 0), n)
